@@ -183,6 +183,19 @@ def item_config(repo):
         body = re.sub(r'\s+', '', block_after(impl, r'fn\s+' + fn + r'\s*\('))
         if body != f'self.{fn}_ms.map(Duration::from_millis)':
             raise ValueError('config accessor ' + fn)
+    # QUIC transport options: every option sets the quinn parameter of the same name, and nothing else
+    if re.sub(r'\s+', '', block_after(impl, r'fn\s+transport_config\s*\(')) != 'self.quic.as_ref().map(QuicConfig::transport_config).unwrap_or_default()':
+        raise ValueError('config: Config::transport_config')
+    qimpl = block_after(s, r'impl\s+QuicConfig\s*\{')
+    qb = flat(block_after(qimpl, r'fn\s+transport_config\s*\('))
+    if not qb.startswith('let mut config = quinn::TransportConfig::default();') or not qb.endswith('config'):
+        raise ValueError('config: QuicConfig::transport_config frame')
+    pairs = re.findall(r'if let Some\((\w+)\) = self\s*\.\s*(\w+)((?:\s*\.\s*map\([^{]*?\))*)\s*\{ config\.(\w+)\((?:Some\()?\1\)?\); \}', qb)
+    got = {(f, st) for _, f, _, st in pairs}
+    wantq = {(f, f[:-3] if f.endswith('_ms') else f) for f in ['max_concurrent_bidi_streams', 'max_concurrent_uni_streams', 'stream_receive_window', 'receive_window',
+                                                             'send_window', 'crypto_buffer_size', 'max_idle_timeout_ms', 'keep_alive_interval_ms']}
+    if got != wantq or qb.count('config.') != len(wantq):
+        raise ValueError('config: QuicConfig::transport_config sets ' + str(sorted(got ^ wantq)))
     return out
 
 
@@ -501,6 +514,10 @@ def item_tick(repo):
     m = re.search(r'\.filter\(\|peer_info\| \{ (.*?) \}\) \.cloned\(\) \.collect\(\)', f)
     if not m:
         raise ValueError('tick: eligibility filter')
+    # the check is exactly: drain finished dials; compute the eligible set; compute the budget; dial
+    heads = [x.split('(')[0].split('{')[0].strip()[:40] for x in split_stmts(f)]
+    if heads != ['self.pending_dials .retain', 'let eligible: Vec<_> =', 'let number_to_dial = std::cmp::min', 'for mut peer in eligible.into_iter'] or f.count('pending_dials') != 3 or f.count('dial_backoff_states') != 4:
+        raise ValueError('tick: statements of handle_connectivity_check: ' + str(heads)[:160])
     clauses = []
     for c in [x.strip() for x in m.group(1).split('&&')]:
         for pat, name in ELIG:
